@@ -85,13 +85,21 @@ func (d *unmarshalJSONDecoder) Decode(ctx *RuntimeContext, cursor, depth int64, 
 		typ: d.typ,
 		ptr: p,
 	}))
-	if (ctx.Option.Flags & ContextOption) != 0 {
-		if err := v.(unmarshalerContext).UnmarshalJSON(ctx.Option.Context, dst); err != nil {
+	// which interface the destination implements does not depend on the options of the call
+	switch v := v.(type) {
+	case unmarshalerContext:
+		var stdctx context.Context
+		if (ctx.Option.Flags & ContextOption) != 0 {
+			stdctx = ctx.Option.Context
+		} else {
+			stdctx = context.Background()
+		}
+		if err := v.UnmarshalJSON(stdctx, dst); err != nil {
 			d.annotateError(cursor, err)
 			return 0, err
 		}
-	} else {
-		if err := v.(json.Unmarshaler).UnmarshalJSON(dst); err != nil {
+	case json.Unmarshaler:
+		if err := v.UnmarshalJSON(dst); err != nil {
 			d.annotateError(cursor, err)
 			return 0, err
 		}
